@@ -32,7 +32,17 @@ func newLexer(filename string, src io.Reader) *lexer {
 	s := &scanner.Scanner{}
 	s.Init(src)
 	s.Filename = filename
-	return &lexer{s: s}
+
+	l := &lexer{s: s}
+
+	// Record scanner errors (invalid characters, unterminated strings and comments),
+	// by default the scanner only prints them to stderr and continues.
+	s.Error = func(s *scanner.Scanner, msg string) {
+		if l.err == nil {
+			l.err = fmt.Errorf("%v %v", s.Pos(), msg)
+		}
+	}
+	return l
 }
 
 func setLexerResult(l yyLexer, file *syntax.File) {
@@ -75,7 +85,10 @@ func (l *lexer) Lex(lval *yySymType) int {
 			return lval.yys
 
 		case scanner.Int:
-			v, _ := strconv.ParseInt(text, 10, 64)
+			v, err := strconv.ParseInt(text, 10, 64)
+			if err != nil {
+				return l.fail("invalid integer %q", text)
+			}
 			lval.yys = INTEGER
 			lval.integer = int(v)
 
@@ -84,14 +97,10 @@ func (l *lexer) Lex(lval *yySymType) int {
 			}
 			return lval.yys
 
-		case scanner.Float:
-			lval.yys = int(token)
-			lval.string = text
-
-			if debugLexer {
-				fmt.Printf("FLOAT %v %v %v\n", l.s.Position, token, text)
-			}
-			return lval.yys
+		case scanner.Float, scanner.Char, scanner.RawString:
+			// These tokens have negative codes, which the parser would take for the end of input
+			// and silently drop the rest of the file.
+			return l.fail("unexpected token %q", text)
 
 		case scanner.String:
 			lval.yys = STRING
@@ -121,7 +130,18 @@ func (l *lexer) Lex(lval *yySymType) int {
 }
 
 func (l *lexer) Error(s string) {
+	if l.err != nil {
+		return // keep the first (lexical) error
+	}
 	l.err = fmt.Errorf("%v %v", l.s.Position, s)
+}
+
+// fail records a lexical error and ends the input.
+func (l *lexer) fail(format string, a ...any) int {
+	if l.err == nil {
+		l.err = fmt.Errorf("%v %v", l.s.Position, fmt.Sprintf(format, a...))
+	}
+	return ERROR
 }
 
 func yyLexError(l yyLexer, err error) int {
